@@ -136,10 +136,14 @@ theorem f_vars_after : ∀ y, y ∉ Gen.varsAfter → Before .vars y := by
   intro y; cases y <;> decide
 theorem f_vars_before : ∀ x, x ∉ Gen.varsBefore → Before x .vars := by
   intro x; cases x <;> decide
-theorem f_vars_first : ∀ x, x ∉ Gen.varsFirstBefore → x ∉ [Kind.vars] → Before x .vars := by
+theorem f_vars_mid : ∀ x, x ∉ Gen.varsFirstBefore → x ∉ Gen.varsStartAfter → x ∉ [Kind.vars] → Before x .vars := by
   intro x; cases x <;> decide
-theorem f_vars_nobug : ∀ y, y ∉ [Kind.charset, .imp, .ns] → Before .vars y := by
+theorem f_vars_start_after : ∀ y, y ∉ Gen.varsStartAfter → Before .vars y := by
   intro y; cases y <;> decide
+theorem f_vars_pre : ∀ x e, e ∈ Gen.varsStartAfter → Before x e → Before x .vars := by
+  intro x e; cases x <;> cases e <;> decide
+theorem f_vars_pre' : ∀ e ∈ Gen.varsStartAfter, Before e .vars := by
+  intro e; cases e <;> decide
 theorem f_other_before : ∀ k, k ≠ .charset → k ≠ .imp → k ≠ .ns → k ≠ .vars → ∀ x, Before x k := by
   intro k; cases k <;> intro _ _ _ _ x <;> cases x <;> first | contradiction | decide
 theorem f_other_after : ∀ k, k ≠ .charset → k ≠ .imp → k ≠ .ns → k ≠ .vars →
@@ -272,10 +276,11 @@ theorem place_other_end {l : List Kind} {k : Kind} (h : TopK l)
   · intro x _; exact f_other_before k h1 h2 h3 h4 x
   · simp
 
-/-- the part of the list up to the last @charset/@import may stand before @namespace -/
-theorem ns_prefix_before {l : List Kind} (h : TopK l) :
-    ∀ x ∈ l.take (afterLastOf Gen.nsStartAfter l), Before x .ns := by
-  cases hk : hasKind Gen.nsStartAfter l with
+/-- the part of the list up to the last rule of `ks` may stand before `k` -/
+theorem prefix_before {l : List Kind} {ks : List Kind} {k : Kind} (h : TopK l)
+    (fpre : ∀ x e, e ∈ ks → Before x e → Before x k) (fpre' : ∀ e ∈ ks, Before e k) :
+    ∀ x ∈ l.take (afterLastOf ks l), Before x k := by
+  cases hk : hasKind ks l with
   | false => rw [afterLastOf_none hk]; simp
   | true =>
     obtain ⟨a, e, b, hl, he, _, hn⟩ := afterLastOf_split hk
@@ -285,53 +290,66 @@ theorem ns_prefix_before {l : List Kind} (h : TopK l) :
     intro x hx
     rw [take_succ_append] at hx
     rcases List.mem_append.mp hx with hx | hx
-    · exact f_ns_pre x e he (h.2.2 x hx e (by simp))
+    · exact fpre x e he (h.2.2 x hx e (by simp))
     · have : x = e := by simpa using hx
-      subst this; exact f_ns_pre' x he
+      subst this; exact fpre' x he
 
-theorem ns_suffix_free (l : List Kind) :
-    hasKind Gen.nsStartAfter (l.drop (afterLastOf Gen.nsStartAfter l)) = false := by
-  cases hk : hasKind Gen.nsStartAfter l with
+theorem suffix_free (ks : List Kind) (l : List Kind) : hasKind ks (l.drop (afterLastOf ks l)) = false := by
+  cases hk : hasKind ks l with
   | false => rw [afterLastOf_none hk]; simpa using hk
   | true =>
     obtain ⟨a, e, b, hl, _, hb, hn⟩ := afterLastOf_split hk
     rw [hn]; subst hl
     rw [drop_succ_append]; exact hb
 
-/-- ordered add of the first @namespace rule: at `start + j`, where nothing in `[start, start+j)` is in
-`nsFirstBefore` -/
-theorem place_ns_first {l : List Kind} (h : TopK l) (hno : hasKind [.ns] l = false) (j : Nat)
-    (hmid : hasKind Gen.nsFirstBefore ((l.drop (afterLastOf Gen.nsStartAfter l)).take j) = false) :
-    TopK (l.take (afterLastOf Gen.nsStartAfter l + j) ++ .ns :: l.drop (afterLastOf Gen.nsStartAfter l + j)) := by
+/-- ordered add of the first rule of kind `k`: at `start + j`, where `start` is behind the last rule of `ks` and
+nothing in `[start, start+j)` is in `stop` -/
+theorem place_first {l : List Kind} {ks stop : List Kind} {k : Kind} (h : TopK l) (hno : hasKind [k] l = false)
+    (j : Nat) (hmid : hasKind stop ((l.drop (afterLastOf ks l)).take j) = false)
+    (fpre : ∀ x e, e ∈ ks → Before x e → Before x k) (fpre' : ∀ e ∈ ks, Before e k)
+    (fmid : ∀ x, x ∉ stop → x ∉ ks → x ∉ [k] → Before x k) (fafter : ∀ y, y ∉ ks → Before k y) :
+    TopK (l.take (afterLastOf ks l + j) ++ k :: l.drop (afterLastOf ks l + j)) := by
   apply topK_insert _ h
   · intro x hx
     rw [List.take_add] at hx
     rcases List.mem_append.mp hx with hx | hx
-    · exact ns_prefix_before h x hx
+    · exact prefix_before h fpre fpre' x hx
     · have h1 := hasKind_false hmid x hx
-      have h2 := hasKind_false (ns_suffix_free l) x (List.mem_of_mem_take hx)
+      have h2 := hasKind_false (suffix_free ks l) x (List.mem_of_mem_take hx)
       have h3 := hasKind_false hno x (List.mem_of_mem_drop (List.mem_of_mem_take hx))
-      exact f_ns_mid x h1 h2 h3
+      exact fmid x h1 h2 h3
   · intro y hy
     rw [← List.drop_drop] at hy
-    exact f_ns_start_after y (hasKind_false (ns_suffix_free l) y (List.mem_of_mem_drop hy))
+    exact fafter y (hasKind_false (suffix_free ks l) y (List.mem_of_mem_drop hy))
 
-theorem place_vars_first {l : List Kind} (h : TopK l) (hno : hasKind [.vars] l = false) (j : Nat)
-    (hpre : hasKind Gen.varsFirstBefore (l.take j) = false)
-    (hpost : hasKind [.charset, .imp, .ns] (l.drop j) = false) :
-    TopK (l.take j ++ .vars :: l.drop j) := by
-  apply topK_insert _ h
-  · intro x hx
-    exact f_vars_first x (hasKind_false hpre x hx) (hasKind_false hno x (List.mem_of_mem_take hx))
-  · intro y hy
-    exact f_vars_nobug y (hasKind_false hpost y hy)
+theorem afterLastOf_le' (ks : List Kind) (l : List Kind) : afterLastOf ks l ≤ l.length := by
+  induction l with
+  | nil => simp [afterLastOf]
+  | cons a t ih =>
+    simp only [afterLastOf, List.length_cons]
+    split
+    · omega
+    · split <;> omega
+
+/-- … and at the end of the list when no rule of `stop` follows -/
+theorem place_first_end {l : List Kind} {ks stop : List Kind} {k : Kind} (h : TopK l) (hno : hasKind [k] l = false)
+    (hnone : firstIdx stop (l.drop (afterLastOf ks l)) = none)
+    (fpre : ∀ x e, e ∈ ks → Before x e → Before x k) (fpre' : ∀ e ∈ ks, Before e k)
+    (fmid : ∀ x, x ∉ stop → x ∉ ks → x ∉ [k] → Before x k) (fafter : ∀ y, y ∉ ks → Before k y) :
+    TopK (l.take l.length ++ k :: l.drop l.length) := by
+  have hle := afterLastOf_le' ks l
+  have := place_first h hno (l.length - afterLastOf ks l) (by
+    have := firstIdx_none hnone
+    apply Bool.eq_false_iff.mpr
+    intro hc
+    obtain ⟨x, hx, hxk⟩ := hasKind_true hc
+    exact hasKind_false this x (List.mem_of_mem_take hx) hxk) fpre fpre' fmid fafter
+  rwa [Nat.add_sub_cancel' hle] at this
 
 /-- **the position checks keep the order**: whenever `place` answers "insert at `i`", inserting there keeps `TopK` —
-for every kind, every index and both modes, outside the two listed regions -/
+for every kind, every index and both modes -/
 theorem place_topK (l : List Kind) (k : Kind) (idx : Nat) (inOrder : Bool) (i : Nat)
-    (h : TopK l) (hp : place l k idx inOrder = .at i)
-    (hbug : ¬ (inOrder = true ∧ k = .vars ∧ varsScanBug l = true))
-    (hfb : inOrder = true → orderedFallback l k = true → idx = l.length) :
+    (h : TopK l) (hp : place l k idx inOrder = .at i) :
     TopK (l.take i ++ k :: l.drop i) := by
   unfold place at hp
   split at hp
@@ -394,25 +412,11 @@ theorem place_topK (l : List Kind) (k : Kind) (idx : Nat) (inOrder : Bool) (i : 
               · rename_i j hj
                 injection hp with hp; subst hp
                 obtain ⟨a, e, b, hl, ha, hna, _⟩ := firstIdx_some hj
-                apply place_ns_first h hno
+                apply place_first h hno j _ f_ns_pre f_ns_pre' f_ns_mid f_ns_start_after
                 rw [hl, ← ha, take_len_append]; exact hna
               · rename_i hj
                 injection hp with hp; subst hp
-                have hlen : idx = l.length := hfb hord (by simp [orderedFallback, hno, hj])
-                subst hlen
-                have hle : afterLastOf Gen.nsStartAfter l ≤ l.length := by
-                  cases hk : hasKind Gen.nsStartAfter l with
-                  | false => rw [afterLastOf_none hk]; omega
-                  | true =>
-                    obtain ⟨a, e, b, hl, _, _, hn⟩ := afterLastOf_split hk
-                    rw [hn, hl]; simp
-                have := place_ns_first h hno (l.length - afterLastOf Gen.nsStartAfter l) (by
-                  have := firstIdx_none hj
-                  apply Bool.eq_false_iff.mpr
-                  intro hc
-                  obtain ⟨x, hx, hxk⟩ := hasKind_true hc
-                  exact hasKind_false this x (List.mem_of_mem_take hx) hxk)
-                rwa [Nat.add_sub_cancel' hle] at this
+                exact place_first_end h hno hj f_ns_pre f_ns_pre' f_ns_mid f_ns_start_after
           · split at hp
             · cases hp
             · split at hp
@@ -430,26 +434,16 @@ theorem place_topK (l : List Kind) (k : Kind) (idx : Nat) (inOrder : Bool) (i : 
                 exact topK_insert_after_last h hex (by decide)
               · rename_i hord hex
                 have hno : hasKind [.vars] l = false := by simpa using hex
+                dsimp only at hp
                 split at hp
                 · rename_i j hj
                   injection hp with hp; subst hp
                   obtain ⟨a, e, b, hl, ha, hna, _⟩ := firstIdx_some hj
-                  apply place_vars_first h hno
-                  · rw [hl, ← ha, take_len_append]; exact hna
-                  · cases hpost : hasKind [.charset, .imp, .ns] (List.drop j l) with
-                    | false => rfl
-                    | true => exact absurd ⟨hord, rfl, by simp [varsScanBug, hno, hj, hpost]⟩ hbug
+                  apply place_first h hno j _ f_vars_pre f_vars_pre' f_vars_mid f_vars_start_after
+                  rw [hl, ← ha, take_len_append]; exact hna
                 · rename_i hj
                   injection hp with hp; subst hp
-                  have hlen : idx = l.length := hfb hord (by simp [orderedFallback, hno, hj])
-                  subst hlen
-                  apply place_vars_first h hno
-                  · have := firstIdx_none hj
-                    apply Bool.eq_false_iff.mpr
-                    intro hc
-                    obtain ⟨x, hx, hxk⟩ := hasKind_true hc
-                    exact hasKind_false this x (List.mem_of_mem_take hx) hxk
-                  · simp [hasKind]
+                  exact place_first_end h hno hj f_vars_pre f_vars_pre' f_vars_mid f_vars_start_after
             · split at hp
               · cases hp
               · split at hp
@@ -513,9 +507,7 @@ theorem cleanNamespaces_sublist (l : List Rule) : (cleanNamespaces l).1.Sublist 
 
 /-- **insertRule's hierarchy check keeps the order**, whatever the outcome (accepted, refused, raised half-way) -/
 theorem insertCore_topOK (st : St) (dict : Dict) (r : Rule) (idx : Nat) (inOrder clean track : Bool)
-    (h : TopOK st.rules)
-    (hbug : ¬ (inOrder = true ∧ r.kind = .vars ∧ varsScanBug (kindsOf st.rules) = true))
-    (hfb : inOrder = true → orderedFallback (kindsOf st.rules) r.kind = true → idx = st.rules.length) :
+    (h : TopOK st.rules) :
     TopOK (insertCore st dict r idx inOrder clean track).1.rules := by
   unfold insertCore
   split
@@ -525,7 +517,7 @@ theorem insertCore_topOK (st : St) (dict : Dict) (r : Rule) (idx : Nat) (inOrder
   · rename_i i hp
     have hins : TopOK (pyInsert st.rules i r) := by
       unfold TopOK; rw [kindsOf_pyInsert]
-      exact place_topK _ _ idx inOrder i h hp hbug (by simpa using hfb)
+      exact place_topK _ _ idx inOrder i h hp
     have hins' : TopOK (pyInsert st.rules i r.adopt) := by
       unfold TopOK at *; rw [kindsOf_pyInsert] at *; exact hins
     split
@@ -642,7 +634,7 @@ theorem parseOne_acc {raising : Bool} {p q : PSt} {s : Spec} (h : parseOne raisi
 theorem pInsert_topOK (raising : Bool) (p : PSt) (r : Rule) (cl : Bool) (h : TopOK p.acc) :
     TopOK (pInsert raising p r cl).1 := by
   unfold pInsert
-  exact insertCore_topOK _ _ _ _ false _ _ h (by simp) (by simp)
+  exact insertCore_topOK _ _ _ _ false _ _ h
 
 theorem parseOne_topOK {raising : Bool} {p q : PSt} {s : Spec} (h : parseOne raising p s = .ok q)
     (hp : TopOK p.acc) : TopOK q.acc := by
@@ -713,34 +705,21 @@ theorem idx_of_len (index : Option Int) (n idx : Nat) (hi : idxOf index n = some
     omega
 
 theorem insertRule_topOK (st : St) (s : Spec) (index : Option Int) (inOrder viaStr track : Bool)
-    (h : TopOK st.rules)
-    (hbug : ¬ (inOrder = true ∧ s.kind = .vars ∧ varsScanBug (kindsOf st.rules) = true))
-    (hfb : inOrder = true → orderedFallback (kindsOf st.rules) s.kind = true →
-      index = none ∨ index = some (st.rules.length : Int)) :
-    TopOK (insertRule st s index inOrder viaStr track).1.rules := by
+    (h : TopOK st.rules) : TopOK (insertRule st s index inOrder viaStr track).1.rules := by
   unfold insertRule
   dsimp only
   split
   · split
     · exact h
-    · rename_i idx hi
-      split
+    · split
       · exact h
       · exact h
-      · rename_i c hc
-        refine insertCore_topOK { rules := st.rules, gone := st.gone, next := _, raising := st.raising }
-          _ _ _ _ _ _ h ?_ ?_
-        · rw [parseCand_kind hc]; exact hbug
-        · rw [parseCand_kind hc]; intro hio hof; exact idx_of_len index _ idx hi (hfb hio hof)
+      · exact insertCore_topOK { rules := st.rules, gone := st.gone, next := _, raising := st.raising } _ _ _ _ _ _ h
   · split
     · exact h
-    · rename_i idx hi
-      split
+    · split
       · exact h
-      · refine insertCore_topOK { rules := st.rules, gone := st.gone, next := _, raising := st.raising }
-          _ _ _ _ _ _ h ?_ ?_
-        · rw [inst_kind]; exact hbug
-        · rw [inst_kind]; intro hio hof; exact idx_of_len index _ idx hi (hfb hio hof)
+      · exact insertCore_topOK { rules := st.rules, gone := st.gone, next := _, raising := st.raising } _ _ _ _ _ _ h
 
 theorem setEncoding_topOK (st : St) (e : Cps) (valid : Bool) (h : TopOK st.rules) :
     TopOK (setEncoding st e valid).1.rules := by
@@ -754,7 +733,7 @@ theorem setEncoding_topOK (st : St) (e : Cps) (valid : Bool) (h : TopOK st.rules
     · exact h
     · split
       · exact h
-      · exact insertRule_topOK st _ _ false false false h (by simp) (by simp)
+      · exact insertRule_topOK st _ _ false false false h
   unfold setEncoding
   dsimp only
   split
@@ -772,7 +751,7 @@ theorem setEncoding_topOK (st : St) (e : Cps) (valid : Bool) (h : TopOK st.rules
 theorem nsSet_topOK (st : St) (p u : Cps) (h : TopOK st.rules) : TopOK (nsSet st p u).1.rules := by
   unfold nsSet
   split
-  · exact insertRule_topOK st _ none true false false h (by simp) (by simp)
+  · exact insertRule_topOK st _ none true false false h
   · split
     · exact h
     · split <;> exact h
@@ -1277,8 +1256,7 @@ def mergesCharset (st : St) (k : Kind) (idx : Nat) (inOrder : Bool) : Bool :=
 
 theorem insertCore_goneOK (st : St) (dict : Dict) (r : Rule) (idx : Nat) (inOrder clean track : Bool)
     (hl : ∀ x ∈ st.rules, x.linksOK none true = true) (hg : ∀ g ∈ st.gone, g.linksOK none false = true)
-    (hr : r.linksOK none false = true)
-    (hreg : ¬ (track = true ∧ mergesCharset st r.kind idx inOrder = true)) :
+    (hr : r.linksOK none false = true) :
     ∀ g ∈ (insertCore st dict r idx inOrder clean track).1.gone, g.linksOK none false = true := by
   have hheld : ∀ g ∈ st.gone ++ (if track = true then [r] else []), g.linksOK none false = true := by
     intro g hg'
@@ -1300,10 +1278,7 @@ theorem insertCore_goneOK (st : St) (dict : Dict) (r : Rule) (idx : Nat) (inOrde
   unfold insertCore
   split
   · exact hheld
-  · rename_i hp
-    cases track with
-    | false => simpa using hg
-    | true => exact absurd ⟨rfl, by simp [mergesCharset, hp]⟩ hreg
+  · exact hheld
   · rename_i i _
     split
     · split
@@ -1433,13 +1408,11 @@ theorem mergesCharset_iff (st : St) (k : Kind) (idx : Nat) (inOrder : Bool) :
 theorem insertCore_inv (st : St) (dict : Dict) (r : Rule) (idx : Nat) (inOrder clean track : Bool)
     (hk : ∀ x ∈ st.rules, x.kidsOK = true) (hl : ∀ x ∈ st.rules, x.linksOK none true = true)
     (hg : ∀ g ∈ st.gone, g.linksOK none false = true) (hlt : ∀ x ∈ st.rules, x.id < r.id) (hn : r.id < st.next)
-    (hrk : r.kidsOK = true) (hrl : r.linksOK none false = true)
-    (hmerge : ¬ (track = true ∧ r.kind = .charset ∧ inOrder = true ∧ firstIs [.charset] (kindsOf st.rules) = true)) :
+    (hrk : r.kidsOK = true) (hrl : r.linksOK none false = true) :
     Inv (insertCore st dict r idx inOrder clean track).1 := by
   refine ⟨insertCore_kidsOK st dict r idx inOrder clean track hk hrk,
    insertCore_linksOK st dict r idx inOrder clean track hl hrl,
-   insertCore_goneOK st dict r idx inOrder clean track hl hg hrl (by
-     intro ⟨ht, hm⟩; exact hmerge ⟨ht, (mergesCharset_iff st r.kind idx inOrder).mp hm⟩), ?_⟩
+   insertCore_goneOK st dict r idx inOrder clean track hl hg hrl, ?_⟩
   intro x hx
   have hnext : (insertCore st dict r idx inOrder clean track).1.next = st.next := by
     unfold insertCore
@@ -1643,9 +1616,7 @@ theorem logError_ne {raising : Bool} {e e' : Err} (h : e ≠ e') : logError rais
   unfold logError; split <;> simp [h]
 
 theorem insertRule_inv (st : St) (s : Spec) (index : Option Int) (inOrder viaStr track : Bool) (h : Inv st)
-    (hs : viaStr = true ∨ s.kidsOK = true)
-    (hmerge : ¬ (track = true ∧ viaStr = false ∧ s.kind = .charset ∧ inOrder = true ∧
-      firstIs [.charset] (kindsOf st.rules) = true ∧ (idxOf index st.rules.length).isSome = true)) :
+    (hs : viaStr = true ∨ s.kidsOK = true) :
     Inv (insertRule st s index inOrder viaStr track).1 := by
   unfold insertRule
   dsimp only
@@ -1660,7 +1631,7 @@ theorem insertRule_inv (st : St) (s : Spec) (index : Option Int) (inOrder viaStr
       · rename_i c hc
         have hc' := parseCand_ok hc
         refine insertCore_inv { rules := st.rules, gone := st.gone, next := c.2, raising := st.raising }
-          _ _ _ _ _ _ h.kids h.links h.gone ?_ ?_ hc'.1 hc'.2.1 (by simp)
+          _ _ _ _ _ _ h.kids h.links h.gone ?_ ?_ hc'.1 hc'.2.1
         · intro x hx; rw [hc'.2.2.1]; exact h.ids x hx
         · rw [hc'.2.2.1]; exact hc'.2.2.2
   · rename_i hv
@@ -1692,12 +1663,9 @@ theorem insertRule_inv (st : St) (s : Spec) (index : Option Int) (inOrder viaStr
           · exact hs
         refine insertCore_inv
           { rules := st.rules, gone := st.gone, next := (Spec.inst none st.next s).2, raising := st.raising }
-          _ _ _ _ _ _ h.kids h.links h.gone ?_ ?_ (inst_kidsOK none st.next s hsk) (inst_linksOK none st.next s) ?_
+          _ _ _ _ _ _ h.kids h.links h.gone ?_ ?_ (inst_kidsOK none st.next s hsk) (inst_linksOK none st.next s)
         · intro x hx; rw [inst_id]; exact h.ids x hx
         · rw [inst_id]; exact inst_next none st.next s
-        · rw [inst_kind]
-          intro ⟨ht, hk, hio, hf⟩
-          exact hmerge ⟨ht, hv', hk, hio, hf, by simp [hi]⟩
 
 theorem deleteRule_inv (st : St) (i : Int) (h : Inv st) : Inv (deleteRule st i).1 := by
   unfold deleteRule
@@ -1737,7 +1705,7 @@ theorem setEncoding_inv (st : St) (e : Cps) (valid : Bool) (h : Inv st) : Inv (s
     · exact h
     · split
       · exact h
-      · exact insertRule_inv st _ _ false false false h (Or.inr (by simp [Spec.kidsOK, Spec.kidsOKL])) (by simp)
+      · exact insertRule_inv st _ _ false false false h (Or.inr (by simp [Spec.kidsOK, Spec.kidsOKL]))
   unfold setEncoding
   dsimp only
   split
@@ -1772,31 +1740,26 @@ theorem nsDel_inv (st : St) (p : Cps) (h : Inv st) : Inv (nsDel st p).1 := by
 theorem nsSet_inv (st : St) (p u : Cps) (h : Inv st) : Inv (nsSet st p u).1 := by
   unfold nsSet
   split
-  · exact insertRule_inv st _ none true false false h (Or.inr (by simp [Spec.kidsOK, Spec.kidsOKL])) (by simp)
+  · exact insertRule_inv st _ none true false false h (Or.inr (by simp [Spec.kidsOK, Spec.kidsOKL]))
   · split
     · exact h
     · split <;> exact h
 
-/-- `sheet.cssText = …`: refused, or accepted on an empty sheet (the replaced objects are the finding) -/
-theorem setText_inv (st : St) (specs : List Spec) (h : Inv st)
-    (hreg : ¬ (st.rules ≠ [] ∧
-      (parseTop st.raising { acc := [], nd := [], level := 0, next := st.next } specs).isOk = true)) :
-    Inv (setText st specs).1 := by
+/-- `sheet.cssText = …`: refused (nothing changes) or accepted (new tree valid, the replaced rules detached) -/
+theorem setText_inv (st : St) (specs : List Spec) (h : Inv st) : Inv (setText st specs).1 := by
   unfold setText
   split
   · exact h
   · rename_i p hp
     have hacc := (parseTop_accOK hp (by intro x hx; cases hx)).1
     have hsub := cleanNamespaces_sublist p.acc
-    have hnil : st.rules = [] := by
-      cases hr : st.rules with
-      | nil => rfl
-      | cons a t => exact absurd ⟨by simp [hr], by simp [hp, Except.isOk, Except.toBool]⟩ hreg
     refine ⟨fun x hx => (hacc x (hsub.subset hx)).1, fun x hx => (hacc x (hsub.subset hx)).2.1, ?_,
       fun x hx => (hacc x (hsub.subset hx)).2.2⟩
     intro g hg
-    simp only [hnil, List.append_nil] at hg
-    exact h.gone g hg
+    rcases List.mem_append.mp hg with hg | hg
+    · exact h.gone g hg
+    · obtain ⟨y, hy, rfl⟩ := List.mem_map.mp hg
+      exact detach_linksOK (h.links y hy)
 
 /-! ### operations on nested lists -/
 
@@ -2038,11 +2001,16 @@ theorem cInsert_links (raising : Bool) (c r : Rule) (index : Option Int) (viaStr
       · rw [hx]; exact kid_linksOK c.id hr
       · exact hc x hx
 
+/-- what `container.insertRule` lets through is what the container may hold (facts about the generated isinstance
+tests) -/
+theorem f_container : ∀ ck k : Kind, containerRejects ck k = false → allowedIn ck k = true := by
+  intro ck k; cases ck <;> cases k <;> decide
+
 theorem nInsert_inv (st : St) (path : List Nat) (s : Spec) (index : Option Int) (viaStr : Bool) (h : Inv st)
-    (hs : viaStr = true ∨ s.kidsOK = true)
-    (hreg : ∀ c, atPath st.rules path = some c →
-      containerRejects c.kind s.kind = false → allowedIn c.kind s.kind = true) :
+    (hs : viaStr = true ∨ s.kidsOK = true) :
     Inv (nInsert st path s index viaStr).1 := by
+  have hreg : ∀ c, atPath st.rules path = some c →
+      containerRejects c.kind s.kind = false → allowedIn c.kind s.kind = true := fun c _ => f_container c.kind s.kind
   unfold nInsert
   split
   · exact h
@@ -2110,9 +2078,7 @@ theorem nDelete_inv (st : St) (path : List Nat) (i : Int) (h : Inv st) : Inv (nD
             simp only [Bool.and_eq_true, beq_iff_eq] at hkl ⊢
             exact ⟨by simp [hkl.1.1], hkl.2⟩
 
-theorem nSetText_inv (st : St) (path : List Nat) (kids : List Spec) (h : Inv st)
-    (hreg : ∀ c, atPath st.rules path = some c → isContainer c = true → c.kids ≠ [] →
-      (cSetText st.raising (nsDict st.rules) st.next c kids).2.2.2 ≠ .none) :
+theorem nSetText_inv (st : St) (path : List Nat) (kids : List Spec) (h : Inv st) :
     Inv (nSetText st path kids).1 := by
   unfold nSetText
   split
@@ -2124,18 +2090,12 @@ theorem nSetText_inv (st : St) (path : List Nat) (kids : List Spec) (h : Inv st)
     · exact h
     · rename_i hcont
       have hcont' : isContainer c = true := by simpa using hcont
-      have hreg' := hreg c hc hcont'
-      unfold cSetText at hreg' ⊢
-      dsimp only at hreg' ⊢
+      unfold cSetText
+      dsimp only
       split
       · have := inv_setPath h path c c st.next [] hc rfl rfl rfl rfl hck hcl (by intro g hg; cases hg) (Nat.le_refl _)
         simpa using this
       · rename_i ks hks
-        simp only [hks] at hreg'
-        have hnil : c.kids = [] := by
-          cases hk : c.kids with
-          | nil => rfl
-          | cons a t => exact absurd rfl (hreg' (by simp [hk]))
         have hnew : Rule.kidsOKL c.kind ks.1 = true ∧ Rule.linksOKL (some c.id) ks.1 = true ∧ st.next ≤ ks.2 := by
           split at hks
           · rename_i hm
@@ -2154,7 +2114,14 @@ theorem nSetText_inv (st : St) (path : List Nat) (kids : List Spec) (h : Inv st)
               parsePageKids_next _ _ _ _ ks hks⟩
         refine inv_setPath h path _ c _ _ hc rfl rfl rfl rfl ?_ hnew.2.1 ?_ hnew.2.2
         · rw [kidsOK_eq]; exact hnew.1
-        · intro g hg; rw [hnil] at hg; cases hg
+        · -- the replaced children are detached
+          intro g hg
+          obtain ⟨k, hk, rfl⟩ := List.mem_map.mp hg
+          rw [linksOKL_eq, List.all_eq_true] at hcl
+          have hkl := hcl k hk
+          rw [linksOK_eq] at hkl ⊢
+          simp only [Bool.and_eq_true, beq_iff_eq] at hkl ⊢
+          exact ⟨by simp [hkl.1.1], hkl.2⟩
 
 /-! ### the live tree alone: no hypothesis and no conclusion about dropped objects
 
@@ -2200,7 +2167,7 @@ theorem insertCore_live (st : St) (dict : Dict) (r : Rule) (idx : Nat) (inOrder 
     (hlt : ∀ x ∈ st.rules, x.id < r.id) (hn : r.id < st.next)
     (hrk : r.kidsOK = true) (hrl : r.linksOK none false = true) :
     Live (insertCore st dict r idx inOrder clean track).1 := by
-  have h := insertCore_inv st.forget dict r idx inOrder clean false hk hl (by intro g hg; cases hg) hlt hn hrk hrl (by simp)
+  have h := insertCore_inv st.forget dict r idx inOrder clean false hk hl (by intro g hg; cases hg) hlt hn hrk hrl
   have hf := insertCore_forget st dict r idx inOrder clean false
   have hf2 : (insertCore st dict r idx inOrder clean track).1.rules = (insertCore st dict r idx inOrder clean false).1.rules ∧
       (insertCore st dict r idx inOrder clean track).1.next = (insertCore st dict r idx inOrder clean false).1.next := by
@@ -2342,10 +2309,10 @@ theorem live_setPath {st : St} (h : Live st) (path : List Nat) (c c0 : Rule) (n 
   exact ⟨this.kids, this.links, this.ids⟩
 
 theorem nInsert_live (st : St) (path : List Nat) (s : Spec) (index : Option Int) (viaStr : Bool) (h : Live st)
-    (hs : viaStr = true ∨ s.kidsOK = true)
-    (hreg : ∀ c, atPath st.rules path = some c →
-      containerRejects c.kind s.kind = false → allowedIn c.kind s.kind = true) :
+    (hs : viaStr = true ∨ s.kidsOK = true) :
     Live (nInsert st path s index viaStr).1 := by
+  have hreg : ∀ c, atPath st.rules path = some c →
+      containerRejects c.kind s.kind = false → allowedIn c.kind s.kind = true := fun c _ => f_container c.kind s.kind
   have hi := live_forget_inv h
   unfold nInsert
   split
@@ -2438,29 +2405,42 @@ theorem validB_iff (st : St) : validB st = true ↔ Valid st := by
   · intro h
     exact ⟨⟨⟨h.top, fun r hr => ⟨h.kids r hr, h.links r hr⟩⟩, h.gone⟩, h.ids⟩
 
-/-- in a valid state the public getter `parentStyleSheet` answers the sheet for every rule of the sheet's list and
-for every rule directly inside one of them -/
-theorem derivedPss_depth1 (st : St) (h : Valid st) :
-    (∀ r ∈ st.rules, derivedPss none r = true) ∧
-    (∀ c ∈ st.rules, ∀ k ∈ c.kids, derivedPss (some c) k = true) := by
-  constructor
-  · intro r hr
-    have := h.links r hr
+mutual
+/-- where the raw back pointers mirror containment, the getter `parentStyleSheet` (which walks up the parent rules)
+answers what the outermost rule answers — at every depth -/
+theorem pssOK_of_links (anc : List Rule) (p : Option Nat) (s : Bool) :
+    (r : Rule) → r.linksOK p s = true →
+      derivedPss anc ⟨r.id, r.kind, r.pre, r.uri, r.enc, r.used, r.pss, r.prule, []⟩ = true → r.pssOK anc = true
+  | ⟨i, k, pre, uri, enc, used, ps, pr, kids⟩, hl, hd => by
+    simp only [Rule.linksOK, Bool.and_eq_true] at hl
+    simp only [Rule.pssOK, Bool.and_eq_true]
+    exact ⟨hd, pssOKL_of_links _ anc i kids hl.2 hd⟩
+theorem pssOKL_of_links (c : Rule) (anc : List Rule) (cid : Nat) :
+    (l : List Rule) → Rule.linksOKL (some cid) l = true → derivedPss anc c = true → Rule.pssOKL (c :: anc) l = true
+  | [], _, _ => by simp [Rule.pssOKL]
+  | r :: rs, hl, hd => by
+    simp only [Rule.linksOKL, Bool.and_eq_true] at hl
+    simp only [Rule.pssOKL, Bool.and_eq_true]
+    refine ⟨pssOK_of_links (c :: anc) (some cid) false r hl.1 ?_, pssOKL_of_links c anc cid rs hl.2 hd⟩
+    have := hl.1
     rw [linksOK_eq] at this
     simp only [Bool.and_eq_true, beq_iff_eq] at this
     unfold derivedPss
-    rw [this.1.2]; exact this.1.1
-  · intro c hc k hk
-    have := h.links c hc
-    rw [linksOK_eq] at this
-    simp only [Bool.and_eq_true, beq_iff_eq] at this
-    have hkl := this.2
-    rw [linksOKL_eq, List.all_eq_true] at hkl
-    have hk' := hkl k hk
-    rw [linksOK_eq] at hk'
-    simp only [Bool.and_eq_true, beq_iff_eq] at hk'
-    unfold derivedPss
-    rw [hk'.1.2]; exact this.1.1
+    simp only [this.1.2]
+    exact hd
+end
+
+/-- in a valid state the public getter `parentStyleSheet` answers the sheet for every rule of the tree, at any depth -/
+theorem derivedPss_all (st : St) (hl : ∀ r ∈ st.rules, r.linksOK none true = true) :
+    ∀ r ∈ st.rules, r.pssOK [] = true := by
+  intro r hr
+  apply pssOK_of_links [] none true r (hl r hr)
+  have := hl r hr
+  rw [linksOK_eq] at this
+  simp only [Bool.and_eq_true, beq_iff_eq] at this
+  unfold derivedPss
+  simp only [this.1.2]
+  exact this.1.1
 
 /-! ## rule descriptions used by the witnesses in `Props/C09.lean` -/
 namespace Wit
